@@ -15,6 +15,8 @@ import (
 
 	"github.com/csgura/fp"
 	"github.com/csgura/fp/iterator"
+	"github.com/csgura/fp/monoid"
+	"github.com/csgura/fp/option"
 	"github.com/csgura/fp/ord"
 	"github.com/csgura/fp/seq"
 	. "verifharness/common"
@@ -103,6 +105,25 @@ func (w *world) changed() string {
 
 func pred(m, r int) func(int) bool { return func(x int) bool { return Emod(x, m) == r } }
 
+func (w *world) at(j int) fp.Seq[int] {
+	if j >= 0 && j < len(w.live) {
+		return w.live[j]
+	}
+	return nil
+}
+
+// pickLive: the callback of FlatMap — the element selects one of the live slices (FpVerif: pickLive)
+func (w *world) pickLive(k int) func(int) fp.Seq[int] {
+	live := append([]fp.Seq[int]{}, w.live...)
+	return func(v int) fp.Seq[int] {
+		j := Emod(v+k, len(live))
+		if j < len(live) {
+			return live[j]
+		}
+		return nil
+	}
+}
+
 func (w *world) applyOp(i int, op *Sx) []fp.Seq[int] {
 	var s fp.Seq[int]
 	if i < len(w.live) {
@@ -110,6 +131,74 @@ func (w *world) applyOp(i int, op *Sx) []fp.Seq[int] {
 	}
 	a := op.List
 	switch op.Head() {
+	case "unSeq":
+		_, t := s.UnSeq()
+		return []fp.Seq[int]{t}
+	case "flatMap":
+		return []fp.Seq[int]{s.FlatMap(w.pickLive(a[1].Int()))}
+	case "flatMapPkg":
+		return []fp.Seq[int]{seq.FlatMap(s, w.pickLive(a[1].Int()))}
+	case "flatten":
+		ss := fp.Seq[fp.Seq[int]]{}
+		for _, j := range a[1:] {
+			ss = append(ss, w.at(j.Int()))
+		}
+		return []fp.Seq[int]{seq.Flatten(ss)}
+	case "ap":
+		fs := fp.Seq[fp.Func1[int, int]]{}
+		for _, f := range a[1:] {
+			k, c := f.List[0].Int(), f.List[1].Int()
+			fs = append(fs, func(x int) int { return k*x + c })
+		}
+		return []fp.Seq[int]{seq.Ap(fs, s)}
+	case "map2":
+		return []fp.Seq[int]{seq.Map2(s, w.at(a[1].Int()), func(x, y int) int { return 10*x + y })}
+	case "filterMap":
+		m, r := a[1].Int(), a[2].Int()
+		return []fp.Seq[int]{seq.FilterMap(s, func(x int) fp.Option[int] {
+			if Emod(x, m) == r {
+				return fp.Some(x + 1)
+			}
+			return fp.None[int]()
+		})}
+	case "concatPkg":
+		return []fp.Seq[int]{seq.Concat(a[1].Int(), s)}
+	case "ofPkg":
+		return []fp.Seq[int]{seq.Of(s...)}
+	case "pure":
+		return []fp.Seq[int]{seq.Pure(a[1].Int())}
+	case "mergeCombine":
+		if a[1].Atom == "slice" {
+			return []fp.Seq[int]{monoid.MergeSlice[int]().Combine(s, w.at(a[2].Int()))}
+		}
+		return []fp.Seq[int]{monoid.MergeSeq[int]().Combine(s, w.at(a[2].Int()))}
+	case "mergeEmpty":
+		if a[1].Atom == "slice" {
+			return []fp.Seq[int]{monoid.MergeSlice[int]().Empty()}
+		}
+		return []fp.Seq[int]{monoid.MergeSeq[int]().Empty()}
+	case "reduceMerge":
+		ss := fp.Seq[fp.Seq[int]]{}
+		for _, j := range a[1:] {
+			ss = append(ss, w.at(j.Int()))
+		}
+		return []fp.Seq[int]{seq.Reduce(ss, monoid.MergeSeq[int]())}
+	case "iterToSeq":
+		switch a[1].Atom {
+		case "method":
+			return []fp.Seq[int]{iterator.FromSeq(s).ToSeq()}
+		case "slice":
+			return []fp.Seq[int]{iterator.ToSlice(iterator.FromSlice(s))}
+		}
+		return []fp.Seq[int]{iterator.ToSeq(iterator.FromSeq(s))}
+	case "optToSeq":
+		if a[1].Atom == "none" {
+			return []fp.Seq[int]{option.ToSeq(fp.None[int]()), fp.None[int]().ToSeq()}[:1]
+		}
+		if a[1].Int()%2 == 0 {
+			return []fp.Seq[int]{fp.Some(a[1].Int()).ToSeq()}
+		}
+		return []fp.Seq[int]{option.ToSeq(fp.Some(a[1].Int()))}
 	case "widen":
 		return []fp.Seq[int]{s.Widen()}
 	case "init":
@@ -233,7 +322,60 @@ func runHistory(h *Sx, sink *Sink) string {
 
 var hist = map[string]int{}
 
+func genIdx(r *Rng, nlive int) *Sx { return I(r.Intn(nlive + 1)) }
+
 func genOp(r *Rng, nlive int) *Sx {
+	if r.Intn(5) < 2 {
+		// the long tail: FlatMap family, merge monoids, iterator / option conversions
+		switch r.Intn(17) {
+		case 0:
+			return L(A("unSeq"))
+		case 1:
+			return L(A("flatMap"), I(r.Range(0, 5)))
+		case 2, 3:
+			return L(A("flatMapPkg"), I(r.Range(0, 5)))
+		case 4:
+			xs := []*Sx{A("flatten")}
+			for k, n := 0, r.Intn(4); k < n; k++ {
+				xs = append(xs, genIdx(r, nlive))
+			}
+			return L(xs...)
+		case 5:
+			xs := []*Sx{A("ap")}
+			for k, n := 0, r.Intn(3); k < n; k++ {
+				xs = append(xs, L(I(r.Range(-2, 3)), I(r.Range(-3, 3))))
+			}
+			return L(xs...)
+		case 6:
+			return L(A("map2"), genIdx(r, nlive))
+		case 7:
+			m := r.Range(2, 3)
+			return L(A("filterMap"), I(m), I(r.Intn(m)))
+		case 8:
+			return L(A("concatPkg"), I(r.Range(-9, 9)))
+		case 9:
+			return L(A("ofPkg"))
+		case 10:
+			return L(A("pure"), I(r.Range(-9, 9)))
+		case 11, 12, 13:
+			return L(A("mergeCombine"), A(Pick(r, "seq", "slice")), genIdx(r, nlive))
+		case 14:
+			if r.Bool() {
+				return L(A("mergeEmpty"), A(Pick(r, "seq", "slice")))
+			}
+			xs := []*Sx{A("reduceMerge")}
+			for k, n := 0, r.Intn(4); k < n; k++ {
+				xs = append(xs, genIdx(r, nlive))
+			}
+			return L(xs...)
+		case 15:
+			return L(A("iterToSeq"), A(Pick(r, "method", "seq", "slice")))
+		}
+		if r.Intn(3) == 0 {
+			return L(A("optToSeq"), A("none"))
+		}
+		return L(A("optToSeq"), I(r.Range(-9, 9)))
+	}
 	switch r.Intn(26) {
 	case 0:
 		return L(A("widen"))
